@@ -49,7 +49,9 @@ var zeroOrigin Origin
 // In particular, the scheme and port of the resulting origin are guaranteed
 // to be valid, but its host isn't.
 func Parse(str string) (Origin, bool) {
-	const maxOriginLen = maxSchemeLen + len(schemeHostSep) + maxHostPortLen
+	// The extra byte accounts for the trailing period
+	// of an absolute domain name (e.g. "example.com.").
+	const maxOriginLen = maxSchemeLen + len(schemeHostSep) + maxHostPortLen + 1
 	if len(str) > maxOriginLen {
 		return zeroOrigin, false
 	}
